@@ -124,6 +124,7 @@ func (h *c17Handler) Handle(resp tq.Response, req tq.Request) {
 
 func runC17(t failer, c c17Case) {
 	ev.Eval()
+	journal("C17", c)
 	fail := func(sig, format string, args ...interface{}) {
 		violation(t, "C17", "shutdown", "C17:"+sig, c, format, args...)
 	}
